@@ -19,7 +19,9 @@ MANIFEST = {
             'lookup dict contains, for every self.F.p its fillers read, self.F itself or a prefix of that path (a projection such as the ID tuple lets packages '
             "with different groups share one dict), and the dict is re-selected after F changes. In define_group every per-name table reaches the caller's IDs / "
             "composition through the same order-changing operations, and after the name table is written the chemicals' lookup memo and the multi-phase indexers' "
-            'memos are cleared on every path. That each alias resolves to one position at run time is not decided.',
+            'memos are cleared on every path. For multi-phase indexers the writer of the (index, kind) entries and the readers agree: kind None exactly when the '
+            "index is one row position or None (the chemicals' lookup returns kind None for the ellipsis, so [phase, ...] must not be paired). That each alias "
+            'resolves to one position at run time is not decided.',
 }
 
 CH = 'thermosteam/_chemicals.py'
